@@ -148,7 +148,10 @@ def program(name, d, max_workers=None):
     if name == "create-centres":
         cat = Catalog.from_dataframe(out + "/R", R, ra_name="ra", dec_name="dec", redshift_name="z", weight_name="w",
                                      patch_centers=centres(), chunksize=3, **mw)
-        return obs_catalog(cat)
+        first = obs_catalog(cat)
+        parallel.COMM.Barrier()
+        again = obs_catalog(Catalog(out + "/R"))  # what the cache says when it is opened again
+        return dict(exact=h(first["exact"], again["exact"]), floats=first["floats"] + again["floats"])
     if name == "create-ids":
         cat = Catalog.from_dataframe(out + "/R", R, ra_name="ra", dec_name="dec", redshift_name="z", weight_name="w",
                                      patch_name="pid", chunksize=3, **mw)
